@@ -11,6 +11,8 @@ All proofs are in `Lemmas/C04Lemmas.lean`; this file only states the property th
 import TgModel.Lemmas.C04Lemmas
 import TgModel.Lemmas.C04AccLemmas
 import TgModel.Lemmas.C04ConvLemmas
+import TgModel.Lemmas.C04ConvStmt
+import TgModel.Lemmas.C04ConvVal
 import TgModel.Lemmas.C04Findings
 
 namespace Tg.C04
@@ -279,5 +281,210 @@ example : C04L.runsClean .cls "class A<code c>;".toList 400 = true ∧
 /-- `ValueOK` itself would be too much to ask: the `value` parser takes `[1,]` cleanly -/
 example : C04L.okAnd (exec defs Tables.recoverTokens 400 (.call .value) (PState.init "[1,]".toList))
     (fun s' => decide (s'.errors.length = 0) && decide (s'.kinds.length = 0)) = true := by decide +kernel
+
+/-! ### the converse for whole statements and whole files
+
+`C04L.DS e w` = `C04L.DVN C04L.VW C04L.VWN e w`: derivability in the documented grammar extended by "what a
+clean run of `value` consumed is a `Value`" (`VW`) and "what a clean run of `name_value` — the name of a
+`def`/`defm` — consumed is a name-mode value" (`VWN`).  It contains the documented grammar and `DV VW`
+(`C04L.DVN.of`, `C04L.DVN.ofDV`) and collapses to the documented grammar under `ValueOK` and `NameOK`
+(`C04L.DVN.collapse`).
+
+`C04L.Shape w` (decidable): none of these token patterns occurs in `w` —
+`StrVal StrVal` (string-concat), `< code`, `, code`, `defset code` (type-code: `code` where the documented
+`Type` is wanted; the documented field definition `code x;` is not excluded), `, >` (trailing comma of a
+template argument list), `class Id < >`, `multiclass Id < >` (empty template argument list).  These are the
+places where the statement parser takes more than the documented grammar has, outside of values.  The
+other listed deviations (dag-operator, def-name-brace, range-second-integer, slice-second-integer,
+foreach-init-lookahead, positional-after-named) make the parser take *less* and need no condition;
+list-type-suffix and empty-value-list live inside values (behind `VW`). -/
+
+/-- the excluded patterns, spelled out -/
+example : C04L.badPatterns =
+    [[.StrVal, .StrVal], [.Less, .Code], [.Comma, .Code], [.Defset, .Code], [.Comma, .Greater],
+     [.Class, .Id, .Less, .Greater], [.MultiClass, .Id, .Less, .Greater]] := rfl
+
+/-- **converse, partial** (every statement form — `include`, `assert`, `class`, `def`, `defm`, `defset`,
+`defvar`, `dump`, `foreach`, `if`, `let`, `multiclass`, nested statements included): if the form's parser
+reports nothing new, what it consumed derives, under the shape predicate, from the form's documented
+nonterminal in the extended grammar -/
+theorem statement_form_converse (f : C04L.SForm) (input : List Char) (fuel : Nat) (s s' : PState)
+    (hinv : Inv input s) (h : exec defs Tables.recoverTokens fuel (.call f.fn) s = .ok s')
+    (hclean : s'.errors = s.errors) :
+    ∃ w, s.kinds = w ++ s'.kinds ∧ (C04L.Shape w → C04L.DS (.nt f.nt) w) :=
+  C04L.statement_form_converse f input fuel s s' hinv h hclean
+
+/-- the same for the dispatching `statement` function and the documented `Statement` -/
+theorem statement_converse (input : List Char) (fuel : Nat) (s s' : PState) (hinv : Inv input s)
+    (h : exec defs Tables.recoverTokens fuel (.call .statement) s = .ok s') (hclean : s'.errors = s.errors) :
+    ∃ w, s.kinds = w ++ s'.kinds ∧ (C04L.Shape w → C04L.DS (.nt .Statement_) w) :=
+  C04L.statement_converse input fuel s s' hinv h (by unfold C04L.Clean; rw [hclean]; exact Nat.le_refl _)
+
+/-- **converse at the top, partial**: if `parse` accepts the input without any error and the token kinds
+of the input have the shape, they derive from `SourceFile` in the extended grammar -/
+theorem source_file_converse_partial (input : List Char) (r : ParseResult) (h : parse input = .ok r)
+    (herr : r.errors = []) (hshape : C04L.Shape (PState.init input).kinds) :
+    C04L.DS (.nt .SourceFile_) (PState.init input).kinds :=
+  C04L.source_file_converse input r h herr hshape
+
+/-- …and in the documented grammar itself, under the two named hypotheses on the value words
+(`ValueOK`: what a clean run of `value` consumes is a documented `Value`; `NameOK`: the same for the
+name-mode value of `def`/`defm`).  They are hypotheses, not facts about the parser (see `[1,]` above). -/
+theorem source_file_converse_doc (ValueOK : C04L.ValueOK) (NameOK : C04L.NameOK) (input : List Char)
+    (r : ParseResult) (h : parse input = .ok r) (herr : r.errors = [])
+    (hshape : C04L.Shape (PState.init input).kinds) :
+    Doc.Sentence (PState.init input).kinds :=
+  C04L.source_file_converse_doc ValueOK NameOK input r h herr hshape
+
+/-- the extended grammar of the statement converse: contains the documented grammar and `DV VW`, and
+collapses to the documented grammar when the admitted words are documented -/
+theorem extended_grammar_names (V N : List TokenKind → Prop) (e : Doc.E) (w : List TokenKind) :
+    (Doc.Derives e w → C04L.DVN V N e w) ∧ (C04L.DV V e w → C04L.DVN V N e w) ∧
+    ((∀ v, V v → Doc.Derives (.nt .Value_) v) → (∀ v, N v → Doc.Derives (.nt .Value_NameMode_) v) →
+      C04L.DVN V N e w → Doc.Derives e w) :=
+  ⟨C04L.DVN.of, C04L.DVN.ofDV, fun hV hN h => C04L.DVN.collapse hV hN h⟩
+
+/-- the shape predicate is inherited by every block of adjacent tokens -/
+theorem shape_infix (u v x : List TokenKind) (h : C04L.Shape (u ++ v ++ x)) : C04L.Shape v :=
+  C04L.Shape.infix h
+
+/-! non-vacuity of `source_file_converse_partial`: texts that between them have every statement form
+(nested ones included), every body item, all three `foreach` iterators, `if` with and without `else`, block
+and single-statement bodies.  Each parses without error (kernel evaluation of the parser model) and its
+token kinds have the shape, so they derive from `SourceFile`. -/
+
+def converseSample1 : List Char := "class A<int x = 1, list<bit> y> : B<1, n = 2>, C { int f = x; let g{0...3} = 2; code c = [{ a }]; defvar v = 1; assert 1, \"m\"; dump \"d\"; }
+def d : A<1>;
+def : A<1>;
+defm m : A<2>, C;".toList
+
+def converseSample2 : List Char := "defset list<A> s = { def e : C; }
+let a = 1, b<0-3> = 2 in { def f; }
+let a = 1 in def g;
+foreach i = [1, 2] in def h#i;
+foreach i = {0...3, 5} in { def k; }
+foreach i = 1...3 in def l;".toList
+
+def converseSample3 : List Char := "if !eq(1, 2) then { def p; } else def q;
+if 1 then def r;
+include \"a.td\"
+defvar z = 2;
+dump z;
+assert z, \"no\";".toList
+
+def converseSample4 : List Char := "multiclass M<int n> : N { def x; defm y : Z; let a = 1 in def w; foreach i = [1] in def u; if 1 then def t; defvar dv = 2; assert 1, \"s\"; dump 1; }".toList
+
+example : C04L.DS (.nt .SourceFile_) (PState.init converseSample2).kinds :=
+  C04L.source_file_on_input converseSample2 (by decide +kernel) (by decide +kernel)
+
+example : ∃ r, parse converseSample3 = .ok r ∧ r.errors = [] ∧ C04L.Shape (PState.init converseSample3).kinds :=
+  let ⟨r, h1, h2⟩ := C04L.acceptsClean_spec (input := converseSample3) (by decide +kernel)
+  ⟨r, h1, h2, by decide +kernel⟩
+
+/-- the shape predicate bites exactly where the parser takes more than the documentation: each of these
+is accepted without error and does not have the shape; the documented `code` field has it -/
+example : C04L.acceptsClean "class A<int x,>;".toList = true ∧
+    ¬ C04L.Shape (PState.init "class A<int x,>;".toList).kinds := by constructor <;> decide +kernel
+example : C04L.acceptsClean "multiclass A<> { def x; }".toList = true ∧
+    ¬ C04L.Shape (PState.init "multiclass A<> { def x; }".toList).kinds := by constructor <;> decide +kernel
+example : C04L.acceptsClean "class A<int a, code c>;".toList = true ∧
+    ¬ C04L.Shape (PState.init "class A<int a, code c>;".toList).kinds := by constructor <;> decide +kernel
+example : C04L.acceptsClean "defset list<code> x = { }".toList = true ∧
+    ¬ C04L.Shape (PState.init "defset list<code> x = { }".toList).kinds := by constructor <;> decide +kernel
+example : C04L.acceptsClean "include \"a\" \"b\"".toList = true ∧
+    ¬ C04L.Shape (PState.init "include \"a\" \"b\"".toList).kinds := by constructor <;> decide +kernel
+example : C04L.acceptsClean "def d { code c = [{x}]; }".toList = true ∧
+    C04L.Shape (PState.init "def d { code c = [{x}]; }".toList).kinds := by constructor <;> decide +kernel
+
+/-- non-vacuity of `statement_form_converse`: a nested `foreach` run on its own -/
+example : C04L.okAnd (exec defs Tables.recoverTokens 2000 (.call C04L.SForm.foreach.fn)
+      (PState.init "foreach i = [1, 2] in { if i then def a#i; }".toList))
+    (fun s' => decide (s'.errors.length = 0) && decide (s'.kinds.length = 0)) = true := by decide +kernel
+
+/-! ### the converse for values, and the top without hypotheses
+
+`C04L.VShape w` (decidable): none of these token patterns occurs in `w` — `StrVal StrVal` (string-concat),
+`< code` (type-code), `[ ]`, `{ }`, `( )` (empty-value-list: `[]`, `{}`, `!op()`, `!cond()`), `, ]`, `, }`,
+`, )` (trailing comma of a value list; this also excludes the documented trailing comma of a slice
+`x[1,]`), `] <` (list-type-suffix `[1]<int>`).  Every value form is covered (literals, identifiers, bits,
+lists, dags, class values, bang operators, `!cond`, paste, range/slice/field suffixes); the remaining
+listed deviations (dag-operator, slice-second-integer, range-second-integer, positional-after-named) make
+the parser take less. -/
+
+example : C04L.valuePatterns =
+    [[.StrVal, .StrVal], [.Less, .Code], [.LSquare, .RSquare], [.LBrace, .RBrace], [.LParen, .RParen],
+     [.Comma, .RSquare], [.Comma, .RBrace], [.Comma, .RParen], [.RSquare, .Less]] := rfl
+
+/-- **converse for values** (run form): if the value parser reports nothing new, what it consumed is,
+under the value shape, a documented `Value` -/
+theorem value_run_converse (fuel : Nat) (s s' : PState)
+    (h : exec defs Tables.recoverTokens fuel (.call .value) s = .ok s') (hclean : s'.errors = s.errors) :
+    ∃ w, s.kinds = w ++ s'.kinds ∧ (C04L.VShape w → Doc.Derives (.nt .Value_) w) :=
+  C04L.value_run_converse fuel s s' h (by unfold C04L.Clean; rw [hclean]; exact Nat.le_refl _)
+
+/-- **`ValueOK` under the value shape**: `VW w → VShape w → Derives Value w` -/
+theorem value_converse (w : List TokenKind) (hv : C04L.VW w) (hs : C04L.VShape w) :
+    Doc.Derives (.nt .Value_) w :=
+  C04L.value_converse hv hs
+
+/-- the same for the name of a `def`/`defm` (`NameOK` under the value shape) -/
+theorem name_converse (w : List TokenKind) (hv : C04L.VWN w) (hs : C04L.VShape w) :
+    Doc.Derives (.nt .Value_NameMode_) w :=
+  C04L.name_converse hv hs
+
+theorem value_ok_shape : C04L.ValueOKOn C04L.VShape :=
+  C04L.value_ok_shape
+
+/-- **converse at the top, without hypotheses on values**: if `parse` accepts the input without any error
+and the token kinds of the input have the statement shape and the value shape, they are a sentence of the
+documented grammar.  (Asking the value shape of the whole input is more than needed: it also rules out an
+empty `{ }` body or block and the trailing comma of a slice; `source_file_converse_partial` with
+`value_converse` on the value words does without.) -/
+theorem source_file_converse_shape (input : List Char) (r : ParseResult) (h : parse input = .ok r)
+    (herr : r.errors = []) (hshape : C04L.Shape (PState.init input).kinds)
+    (hvshape : C04L.VShape (PState.init input).kinds) :
+    Doc.Sentence (PState.init input).kinds :=
+  C04L.source_file_converse_shape input r h herr hshape hvshape
+
+/-- a condition inherited by every block of adjacent tokens reaches every admitted word of a derivation in
+the extended grammar (this is what turns the two shapes of the whole input into the shape of each value) -/
+theorem extended_grammar_restrict (V N G : List TokenKind → Prop) (hG : ∀ u v x, G (u ++ v ++ x) → G v)
+    (e : Doc.E) (w : List TokenKind) (h : C04L.DVN V N e w) (hw : G w) :
+    C04L.DVN (fun v => V v ∧ G v) (fun v => N v ∧ G v) e w :=
+  C04L.DVN.restrict hG h hw
+
+/-- non-vacuity of the value converse: a value with every form, run through the value parser (kernel
+evaluation): no error, everything consumed, the value shape holds — so it is a documented `Value` -/
+example : Doc.Derives (.nt .Value_) (PState.init
+    "!add(a.b, [1, 2]) # C<1, n = 2>.f[0...2]{3} # (op $x, 1:$y) # !cond(1 : \"a\", 0 : ?) # {1, 0} # !cast<list<int>>(x)".toList).kinds :=
+  C04L.value_on_input _ 2000 (by decide +kernel) (by decide +kernel)
+
+/-- the value shape bites exactly where the value parser takes more than the documentation: accepted
+without error, and not of the shape -/
+example : C04L.valueRunsClean "[]".toList 500 = true ∧ ¬ C04L.VShape (PState.init "[]".toList).kinds := by
+  constructor <;> decide +kernel
+example : C04L.valueRunsClean "[1,]".toList 500 = true ∧ ¬ C04L.VShape (PState.init "[1,]".toList).kinds := by
+  constructor <;> decide +kernel
+example : C04L.valueRunsClean "[1]<int>".toList 500 = true ∧ ¬ C04L.VShape (PState.init "[1]<int>".toList).kinds := by
+  constructor <;> decide +kernel
+example : C04L.valueRunsClean "!add()".toList 500 = true ∧ ¬ C04L.VShape (PState.init "!add()".toList).kinds := by
+  constructor <;> decide +kernel
+example : C04L.valueRunsClean "\"a\" \"b\"".toList 500 = true ∧
+    ¬ C04L.VShape (PState.init "\"a\" \"b\"".toList).kinds := by constructor <;> decide +kernel
+example : C04L.valueRunsClean "!cast<code>(x)".toList 500 = true ∧
+    ¬ C04L.VShape (PState.init "!cast<code>(x)".toList).kinds := by constructor <;> decide +kernel
+example : C04L.valueRunsClean "A<>".toList 500 = true ∧ C04L.VShape (PState.init "A<>".toList).kinds := by
+  constructor <;> decide +kernel
+
+/-- non-vacuity of `source_file_converse_shape`: the four sample texts are sentences of the documented
+grammar — obtained from the parser's verdict, not from a derivation written by hand -/
+example : Doc.Sentence (PState.init converseSample1).kinds :=
+  C04L.sentence_on_input converseSample1 (by decide +kernel) (by decide +kernel) (by decide +kernel)
+example : Doc.Sentence (PState.init converseSample2).kinds :=
+  C04L.sentence_on_input converseSample2 (by decide +kernel) (by decide +kernel) (by decide +kernel)
+example : Doc.Sentence (PState.init converseSample3).kinds :=
+  C04L.sentence_on_input converseSample3 (by decide +kernel) (by decide +kernel) (by decide +kernel)
+example : Doc.Sentence (PState.init converseSample4).kinds :=
+  C04L.sentence_on_input converseSample4 (by decide +kernel) (by decide +kernel) (by decide +kernel)
 
 end Tg.C04
